@@ -94,7 +94,8 @@ NOW = '2020-06-15T12:00:00'
 NOWDT = datetime.datetime(2020, 6, 15, 12, 0, 0)
 DAYS = [None, 0, 1, 7, 400]
 SLOTS = ['limit-1s', 'limit', 'limit+1s', 'far-past', 'future', 'missing', 'malformed', 'dup-old-new', 'dup-new-old',
-         'now', 'feb29', 'bad-day', 'malformed-then-old', 'empty-then-old', 'old-with-utc-offset', 'old-with-Z']
+         'now', 'feb29', 'bad-day', 'malformed-then-old', 'empty-then-old', 'old-with-utc-offset', 'old-with-Z',
+         'empty-file', 'header-only']
 TDS = [('/h/.local/share/Trash', lambda p: p), ('/v/.Trash/1000', lambda p: p[3:]), ('/v/.Trash-1000', lambda p: p[3:])]
 CLOCKS = ['clock', 'TRASH_DATE', 'invalid-TRASH_DATE']
 
@@ -139,6 +140,10 @@ def slot_info(slot, days, path_value):
         return head + 'DeletionDate=1990-01-01T00:00:00+02:00\n', False
     if s == 'old-with-Z':
         return head + 'DeletionDate=1990-01-01T00:00:00Z\n', False
+    if s == 'empty-file':  # (what a trash-put leaves for an instant between creating the file and writing it)
+        return '', False
+    if s == 'header-only':
+        return '[Trash Info]\n', False
     if s == 'empty-then-old':
         return head + 'DeletionDate=\nDeletionDate=1990-01-01T00:00:00\n', False
     raise ValueError(s)
@@ -219,20 +224,20 @@ def _case(days, s0, s1, s2, clock, kind):
 def w_main(days: int, s0: int, s1: int, s2: int, clock: int, kind: int) -> str:
     """
     pre: PARTITION is None or s0 == PARTITION
-    pre: 0 <= days < 5 and 0 <= s0 < 16 and 0 <= s1 < 16 and 0 <= s2 < 16 and 0 <= clock < 3 and 0 <= kind < 2
+    pre: 0 <= days < 5 and 0 <= s0 < 18 and 0 <= s1 < 18 and 0 <= s2 < 18 and 0 <= clock < 3 and 0 <= kind < 2
     post: _ == ''
     """
-    return _case(rt.sel(days, 5), rt.sel(s0, 16), rt.sel(s1, 16), rt.sel(s2, 16), rt.sel(clock, 3), rt.of([0, 2], kind))
+    return _case(rt.sel(days, 5), rt.sel(s0, 18), rt.sel(s1, 18), rt.sel(s2, 18), rt.sel(clock, 3), rt.of([0, 2], kind))
 
 
 def w_quick(days: int, s0: int, clock: int, kind: int) -> str:
     """
     pre: PARTITION is None or days == PARTITION
-    pre: 0 <= days < 5 and 0 <= s0 < 16 and 0 <= clock < 3 and 0 <= kind < 6
+    pre: 0 <= days < 5 and 0 <= s0 < 18 and 0 <= clock < 3 and 0 <= kind < 6
     post: _ == ''
     """
-    s = rt.sel(s0, 16)
-    return _case(rt.sel(days, 5), s, (s + 1) % 16, (s + 5) % 16, rt.sel(clock, 3), rt.sel(kind, 6))
+    s = rt.sel(s0, 18)
+    return _case(rt.sel(days, 5), s, (s + 1) % 18, (s + 5) % 18, rt.sel(clock, 3), rt.sel(kind, 6))
 
 
 # ---------------------------------------------------------------- a trash-put completing while trash-empty DAYS runs
@@ -297,14 +302,14 @@ def obligations(tier):
            bounds='DAYS absent or 0..400 symbolic; 10 DeletionDate line shapes; now within +-3 s of the limit (symbolic)',
            stubs=['content reader', 'clock']),
         CH('W_slots_quick', MOD, 'w_quick', timeout=600, partitions=list(range(5)), engine='W', regime='selector', encodes=K.EMPTY_FUNCS, stubs=K.STUBS,
-           bounds='5 DAYS x 16 date slots (x2 derived neighbours) x 3 clock sources x 6 kinds'),
+           bounds='5 DAYS x 18 date slots (x2 derived neighbours) x 3 clock sources x 6 kinds'),
     ]
     obs.append(CH('W_put_completes_while_empty_runs', MOD, 'w_conc', timeout=1200, partitions=[(d, t) for d in range(3) for t in range(2)], engine='W', regime='selector',
                   encodes=K.EMPTY_FUNCS + K.PUT_FUNCS + ['vf.sched replay-stepping'], stubs=K.STUBS,
                   bounds='trash-empty DAYS (1, 7, 100) preempted after k < 150 system calls (its runs are shorter: checked) by a complete trash-put of 6 kinds into the same trash directory (volume / home)'))
     if tier == 'thorough':
-        obs.append(CH('W_slots_product', MOD, 'w_main', timeout=3000, partitions=list(range(16)), twin=False, engine='W',
+        obs.append(CH('W_slots_product', MOD, 'w_main', timeout=3000, partitions=list(range(18)), twin=False, engine='W',
                       regime='selector', encodes=K.EMPTY_FUNCS, stubs=K.STUBS,
-                      bounds='5 DAYS x 16^3 date slots over 3 trash dirs x 3 clock sources x 2 kinds'))
+                      bounds='5 DAYS x 18^3 date slots over 3 trash dirs x 3 clock sources x 2 kinds'))
     from harness import kpair
     return kpair.obligations(tier) + obs
